@@ -450,6 +450,27 @@ func c13Reshape(r *core.Run) {
 			r.Case(id, n >= 2, func() *core.Fail {
 				var fails []string
 				kinds := map[string]bool{}
+				// the tensor's own shape slice as the argument (t.Reshape(t.Shape()...)): equal size, must be a no-op or refused
+				if len(shape) >= 1 {
+					tensor.VerifResetPools()
+					b := buildVerified(d, shape, vals, lay)
+					snap := b.Snapshot()
+					o := call(func() error { return b.T.Reshape(b.T.Shape()...) })
+					r.Op(1)
+					r.Outcome("Reshape(own):" + o.Class)
+					if msg := metaInvariant(b.T); msg != "" {
+						kinds["invariant-violated"] = true
+						fails = append(fails, fmt.Sprintf("Reshape(t.Shape()...) of %v (%s) -> %s: %s", shape, lay, o, msg))
+					} else if got, err := atlas.Logical(b.T); o.Class == "ok" && (err != nil || !ref.EqInts(b.T.Shape(), shape) || len(got) != n) {
+						kinds["wrong-shape"] = true
+						fails = append(fails, fmt.Sprintf("Reshape(t.Shape()...) of %v (%s): shape now %v (%v)", shape, lay, []int(b.T.Shape()), err))
+					} else if o.Class != "ok" {
+						if ch := b.Changed(snap); ch != "" {
+							kinds["operand-changed"] = true
+							fails = append(fails, fmt.Sprintf("refused Reshape(t.Shape()...) of %v (%s) changed the tensor: %s", shape, lay, ch))
+						}
+					}
+				}
 				for _, tg := range targets {
 					tensor.VerifResetPools()
 					b := buildVerified(d, shape, vals, lay)
